@@ -213,11 +213,12 @@ package tor
 //@ func webseedGR
 //@   requires ctx != nil && ws != nil && t != nil && t.Log != nil && GeomSizes(t) && FilesEach(t) && FilesChain(t) && FilesEnds(t) && FilesBound(t)
 //@   requires int64(index)*int64(t.Pieces.PieceSize()) + int64(offset) + int64(length) <= t.Pieces.Length()
+//@   requires [websOn] t.useWebseeds
 //@   modifies *
 //@   loop 1
 //@     invariant [inside] forall k int :: 0 <= k && k < len(fcs) ==> 0 <= fcs[k].offset && 0 <= fcs[k].length && fcs[k].offset + fcs[k].length <= fcs[k].filelength
 //@     invariant [w] writer != nil
-//@   props    C14
+//@   props    C14 C18
 
 // ---- Reader (C02) ----
 //@ use streams
@@ -416,3 +417,60 @@ package tor
 //@   ensures  [rq]     RQOpen(&t.requested) && RQDistinct(&t.requested) && t.requested.pieces != nil
 //@   ensures  [range]  int(index) >= len(t.PieceHashes) ==> $r0 == nil && !$r1
 //@   props    C10
+
+// ---- Privacy switches (C18) ----
+// The switches are preconditions of the functions that talk to the outside,
+// checked where those are called or spawned; the functions that decide
+// (announce, run, maybeWebseed) are checked for every configuration.
+
+// announce: the DHT is only told about the torrent when its mode is not
+// "none", and a port is only advertised in "normal" mode without a proxy.
+//@ func (*Torrent).announce
+//@   requires t != nil && t.Log != nil
+//@   modifies *
+//@   assertcall [mode] Announce :: t.dhtMode > 0
+//@   assertcall [port] Announce :: port != 0 ==> t.dhtMode >= 2 && t.proxy == ""
+//@   props    C18
+
+// trackerAnnounceSingle: only ever runs for a torrent whose tracker use is
+// on (precondition, checked at the spawn in trackerAnnounce); a proxied
+// torrent never reveals its listening ports.
+//@ func trackerAnnounceSingle
+//@   requires t != nil && tr != nil && t.Log != nil && ctx != nil
+//@   requires [trackersOn] t.useTrackers
+//@   modifies *
+//@   assertcall [ports] Announce :: t.proxy != "" ==> port4 == 0 && port6 == 0
+//@   props    C18
+
+//@ func trackerAnnounce
+//@   requires t != nil && ctx != nil && t.rand != nil && t.Log != nil
+//@   requires [trackersOn] t.useTrackers
+//@   modifies *
+//@   focus    pre:tor.trackerAnnounceSingle.trackersOn
+//@   loop 1
+//@     invariant t.useTrackers
+//@   loop 2
+//@     invariant t.useTrackers
+//@   props    C18
+
+// run (the torrent's event loop): PARTIAL check -- tracker announces are
+// started only under the switch.
+//@ func (*Torrent).run
+//@   requires t != nil && ctx != nil
+//@   modifies *
+//@   focus    pre:tor.trackerAnnounce.trackersOn
+//@   props    C18
+
+// maybeWebseed: PARTIAL check -- a web-seed fetch is only spawned when
+// web-seed use is on (precondition of webseedGR/webseedH).
+//@ func maybeWebseed
+//@   requires t != nil && ctx != nil
+//@   modifies *
+//@   focus    pre:tor.webseedGR.websOn, pre:tor.webseedH.websOn
+//@   props    C18
+
+//@ func webseedH
+//@   requires ctx != nil && ws != nil && t != nil && t.Log != nil
+//@   requires [websOn] t.useWebseeds
+//@   modifies *
+//@   props    C14 C18
